@@ -485,8 +485,10 @@ def main():
         "violations": len(fresh) + (1 if (exit_code == 1 and not fresh) else 0),
     }
     if replay_file is None:
-        os.makedirs(os.path.join(ROOT, "evidence"), exist_ok=True)
-        json.dump(ev, open(os.path.join(ROOT, "evidence", prop + ".json"), "w"), indent=1)
+        # runs against a deliberately broken tree (seeded changes) must not overwrite the committed evidence
+        evdir = os.environ.get("VERIF_EVIDENCE_DIR") or os.path.join(ROOT, "evidence")
+        os.makedirs(evdir, exist_ok=True)
+        json.dump(ev, open(os.path.join(evdir, prop + ".json"), "w"), indent=1)
     log.write("\n".join(out_lines) + "\n")
     log.close()
     for l in out_lines:
